@@ -1,5 +1,10 @@
-import GrinVerif.Lemmas.ChainBasic
-/-! # C06 — rejected or losing-fork input leaves best-chain state untouched -/
+import GrinVerif.Lemmas.ChainBisim
+/-! # C06 — rejected or losing-fork input leaves best-chain state untouched
+(theorems on `Model/Chain.lean`; `KnownFull`, `hdrUpdate` in `Lemmas/ChainStep.lean`, `StoreInv`
+in `Lemmas/ChainValid.lean`, `CoreEq`, `obsBest` in `Lemmas/ChainBisim.lean`).
+Transactions (the third kind of input named by the property) are **not modelled** in the chain
+model: a transaction never reaches chain state (it is validated against a read-only view and lives
+in the pool, C14), so there is no chain-state theorem to state about it here. -/
 namespace GV.Props.C06
 open GV GV.Chain
 
@@ -62,5 +67,80 @@ theorem header_accept_frame (p : Params) (n : Node) (b : Blk) :
   · rename_i n' h
     have := processHeader_frame p n n' b h
     exact ⟨this.1, this.2.1⟩
+
+
+/-- (a) **The whole node after a rejected block.** The node is the old node except possibly
+(i) `headers` / `hhead`: changed only by `hdrUpdate` (append the block's id, move the header head
+if it has more work), and only when the full block is not known and the header itself passes
+`validateHeader`; (ii) `orphans`: the block's id is added exactly when the error is `Orphan`. -/
+theorem reject_state (p : Params) (n : Node) (b : Blk) (e : Err)
+    (h : (processBlockSingle p n b).2 = .err e) :
+    ∃ n1, (n1 = n ∨ (¬ KnownFull n b ∧ validateHeader p n b = none ∧ n1 = hdrUpdate n b)) ∧
+      ((processBlockSingle p n b).1 = n1 ∨
+       ((processBlockSingle p n b).1 = addOrphan n1 b ∧ e = "Orphan")) := by
+  rcases processBlockSingle_spec p n b with ⟨e', _, hr⟩ | ⟨n1, h1, hr⟩
+  · exact ⟨n, Or.inl rfl, Or.inl (by rw [hr])⟩
+  · have hn1 : n1 = n ∨ (¬ KnownFull n b ∧ validateHeader p n b = none ∧ n1 = hdrUpdate n b) := by
+      rcases processHeader_ok_cases p n n1 b h1 with ⟨e1, _⟩ | h2
+      · exact Or.inl e1
+      · exact Or.inr h2
+    refine ⟨n1, hn1, ?_⟩
+    rcases hr with ⟨e', _, hr⟩ | ⟨_, hr⟩ | ⟨par, _, ⟨e', _, hr⟩ | ⟨s', _, hr⟩⟩
+    · left; rw [hr]
+    · right
+      rw [hr] at h ⊢
+      refine ⟨rfl, ?_⟩
+      injection h with h
+      exact h.symm
+    · left; rw [hr]
+    · rw [hr] at h
+      exact absurd h (storeBlock_ok n1 b e)
+
+/-- … in particular everything except `headers`, `hhead`, `orphans` is untouched. -/
+theorem reject_state_frame (p : Params) (n : Node) (b : Blk) (e : Err)
+    (h : (processBlockSingle p n b).2 = .err e) :
+    (processBlockSingle p n b).1 =
+      { n with headers := (processBlockSingle p n b).1.headers,
+               hhead := (processBlockSingle p n b).1.hhead,
+               orphans := (processBlockSingle p n b).1.orphans } := by
+  obtain ⟨n1, hn1, hr⟩ := reject_state p n b e h
+  have e1 : n1 = { n with headers := n1.headers, hhead := n1.hhead } := by
+    rcases hn1 with h | ⟨_, _, h⟩
+    · rw [h]
+    · rw [h]; rfl
+  rcases hr with hr | ⟨hr, _⟩
+  · rw [hr]; rw [e1]
+  · rw [hr]; unfold addOrphan; rw [e1]
+
+/-- (b) **Behavioural equivalence, one step.** Two nodes that agree on definitions, head and
+stored blocks — and may differ in remembered headers, header head and orphan pool — give the
+same result and the same best-chain observation (head, stored blocks, reported unspent set) after
+processing any registered block whose parent header is known to both or to neither.
+(`StoreInv`: known headers are valid ones; it holds along every run from a fresh node.) -/
+theorem same_core_same_step (p : Params) (a c : Node) (b : Blk) (h : CoreEq a c)
+    (hb : a.blk b.id = some b) (hia : StoreInv p a) (hic : StoreInv p c)
+    (hp : ∀ par, b.parent = some par → (par ∈ a.headers ↔ par ∈ c.headers)) :
+    (processBlockSingle p a b).2 = (processBlockSingle p c b).2 ∧
+    obsBest p (processBlockSingle p a b).1 = obsBest p (processBlockSingle p c b).1 := by
+  have := processBlockSingle_coreEq p a c b h hb hia hic hp
+  exact ⟨this.2, this.1.obsBest p⟩
+
+/-- (b) … hence a node that saw a rejected block `r` and a twin that never did process the next
+block `b` alike, as long as `b`'s parent header is known to both or neither (the one exception:
+a child of a remembered-but-rejected header is pooled as an orphan by the first node and refused
+with a store error by the twin — it can never be stored by either, see `reject_bisim`). -/
+theorem reject_then_step (p : Params) (n : Node) (r b : Blk) (e : Err)
+    (hr : n.blk r.id = some r) (hb : n.blk b.id = some b) (hi : StoreInv p n)
+    (h : (processBlockSingle p n r).2 = .err e)
+    (hp : ∀ par, b.parent = some par →
+      (par ∈ (processBlockSingle p n r).1.headers ↔ par ∈ n.headers)) :
+    (processBlockSingle p (processBlockSingle p n r).1 b).2 = (processBlockSingle p n b).2 ∧
+    obsBest p (processBlockSingle p (processBlockSingle p n r).1 b).1 =
+      obsBest p (processBlockSingle p n b).1 := by
+  have hd := processBlockSingle_defs p n r
+  have hrp := reject_preserves p n r e h
+  have hc : CoreEq (processBlockSingle p n r).1 n := ⟨hd.2, hd.1, hrp.1, hrp.2⟩
+  exact same_core_same_step p _ n b hc (by rw [blk_congr hd.1]; exact hb)
+    ((parts_storeInv p).toPreserved.single n r hr hi) hi hp
 
 end GV.Props.C06
